@@ -4,6 +4,7 @@ import (
 	"fmt"
 	"go/token"
 	"go/types"
+	"strings"
 
 	"golang.org/x/tools/go/ssa"
 
@@ -166,6 +167,72 @@ func runC34(c *eng.Ctx) {
 				return true
 			})
 			c.Ob("GUARD-jwt-alg", "DecodeJwt claims-type", claimsOK, call.Pos(), "ParseWithClaims is given *SeaweedFileIdClaims (StandardClaims => exp/nbf validated by the library)")
+			// the time claims are validated by the library through the claims' Valid method: it must be the one
+			// promoted from jwt.StandardClaims (a Valid declared on the claims type itself replaces it, and with it the
+			// exp/nbf checks, unless it delegates)
+			okValid := false
+			whyValid := "claims type not found"
+			if pkg := c.P.Pkg("weed/security"); pkg != nil {
+				if obj := pkg.Types.Scope().Lookup("SeaweedFileIdClaims"); obj != nil {
+					for _, t := range []types.Type{obj.Type(), types.NewPointer(obj.Type())} {
+						if sel := types.NewMethodSet(t).Lookup(pkg.Types, "Valid"); sel != nil {
+							if len(sel.Index()) > 1 && sel.Obj().Pkg() != nil && strings.Contains(sel.Obj().Pkg().Path(), "jwt") {
+								okValid, whyValid = true, "promoted from "+sel.Obj().Pkg().Path()
+							} else if own := c.P.Func("weed/security", "(SeaweedFileIdClaims).Valid"); own != nil {
+								// an own method: it must return the embedded validation's error
+								std := eng.Find(own, eng.CallTo("jwt.StandardClaims).Valid"))
+								okValid = len(std) == 1
+								whyValid = "declared on the claims type"
+								if okValid {
+									e := eng.ResultOf(std[0], 0)
+									for _, st := range startsOf(eng.PassEdges(own, eng.ErrNotNil(e))) {
+										if hit, _ := eng.Search(st, func(in ssa.Instruction) bool {
+											r, isR := in.(*ssa.Return)
+											return isR && eng.MayBeNil(r.Results[0])
+										}, eng.SearchOpt{}); hit != nil {
+											okValid = false
+										}
+									}
+									if len(eng.PassEdges(own, eng.ErrNotNil(e))) == 0 {
+										okValid = false
+										for _, r := range eng.Find(own, eng.IsReturn) {
+											if r.(*ssa.Return).Results[0] == e {
+												okValid = true
+											}
+										}
+									}
+								}
+							} else {
+								okValid, whyValid = false, "declared on the claims type (not analysable)"
+							}
+							break
+						}
+					}
+				}
+			}
+			c.Ob("GUARD-jwt-alg", "DecodeJwt claims-validate-time", okValid, call.Pos(), "the claims' Valid method is jwt.StandardClaims' (expiry / not-before are enforced by the library): "+whyValid)
+			// the answer is the library's: a token is returned without error only past a successful parse (a
+			// remembered earlier verification says nothing about the key it is asked for now, nor about the time)
+			var succ []ssa.Instruction
+			direct := false
+			for _, ri := range eng.Find(fn, eng.IsReturn) {
+				r := ri.(*ssa.Return)
+				if r.Block() == fn.Recover || len(r.Results) != 2 {
+					continue
+				}
+				if r.Results[1] == eng.ResultOf(call, 1) && r.Results[0] == eng.ResultOf(call, 0) {
+					direct = true // return jwt.ParseWithClaims(...)
+					continue
+				}
+				if eng.MayBeNil(r.Results[1]) {
+					succ = append(succ, r)
+				}
+			}
+			if len(succ) == 0 {
+				c.Ob("GUARD-jwt-alg", "DecodeJwt answers-the-parse", direct, call.Pos(), "DecodeJwt returns exactly what the library's parse returned")
+			} else {
+				c.Guard("GUARD-jwt-alg", "answers-the-parse", fn, eng.Entry(fn), succ, eng.PassEdges(fn, eng.ErrNil(eng.ResultOf(call, 1))), "a token is returned without error only past a successful parse of this request's token with this request's key")
+			}
 			mc, _ := eng.Unwrap(call.Call.Args[2]).(*ssa.MakeClosure)
 			if mc == nil {
 				c.Undecided("GUARD-jwt-alg", "DecodeJwt keyfunc", call.Pos(), "key function is not a function literal")
